@@ -1260,9 +1260,9 @@ func TestVP_C08_hostile(t *testing.T) {
 // ---------------------------------------------------------------------------
 
 func TestVP_C08_cuts(t *testing.T) {
-	c := kit.New(t, "C08", "for a few generated messages per builder: every prefix (all cut lengths) and the message with each single trailing byte count 1..3 appended; plus the full grid type byte 0..255 x payload length 0..300 x fill {00, ff}; oracle as in the hostile test; non-trivial = prefix shorter than the message; distinct by input bytes")
+	c := kit.New(t, "C08", "for a few generated messages per builder: every prefix (all cut lengths) and the message with each single trailing byte count 1..3 appended; every prefix of a commitment and a pre-commitments message whose last field is a point ending in a zero byte; plus the full grid type byte 0..255 x payload length 0..300 x fill {00, ff}; oracle as in the hostile test; non-trivial = prefix shorter than the message; distinct by input bytes")
 	c.Require(vpC08KindClasses("cuts-")...)
-	c.Require("grid")
+	c.Require("grid", "cuts-zero-tail-point")
 	kit.SetChecks(kit.N(2, 36))
 	rapid.Check(t, func(t *rapid.T) {
 		for _, kind := range vpC08Kinds {
@@ -1279,6 +1279,26 @@ func TestVP_C08_cuts(t *testing.T) {
 				ext := append(append([]byte(nil), data...), make([]byte, extra)...)
 				vpC08Judge(t, fmt.Sprintf("%d zero bytes after built %s", extra, kind), 2, ext)
 				c.Case(vpC08Fp(ext), true, "cuts-"+kind)
+			}
+		}
+		// messages that end in a point whose encoding ends in zero bytes: a cut
+		// inside the point, padded by a parser that copies what is there, is the
+		// whole point again
+		seed := vpSeed64(t, "zero_tail_seed")
+		h := vpC08GenHandle(t, seed)
+		var R crypto.Key
+		for i := 1; ; i++ {
+			if R = vpDerivePoint(seed, 1000+i); R[31] == 0 {
+				break
+			}
+		}
+		for name, data := range map[string][]byte{
+			"commitment":      buildBatchSnapshotCommitmentMessage(h, vpHash(t, "zero_tail_snap"), R, nil),
+			"pre-commitments": buildCommitmentsMessage(h, []*crypto.Key{&R}),
+		} {
+			for cut := 0; cut <= len(data); cut++ {
+				vpC08Judge(t, fmt.Sprintf("cut %d of a %s message ending in a point with a zero last byte", cut, name), 2, data[:cut])
+				c.Case(vpC08Fp(data[:cut]), cut < len(data), "cuts-zero-tail-point")
 			}
 		}
 	})
